@@ -597,8 +597,10 @@ def r16h(F):
 		add_ok = False
 		if cn:
 			cu = F.func(cn)
+			cex2 = Expr(cu)
 			for bi, si, st in cu.stmts():
-				if st[1][:2] == [2, '*'] and st[2][0] == 'bin' and st[2][1] in ('Add', 'AddWithOverflow'):
+				# `*used += amount` (release: one Add; dev: checked add, assert, then the store of its .0)
+				if st[1][:2] == [2, '*'] and _re.search(r' Add(WithOverflow)? ', expr_str(cex2.of_rvalue(st[2]))):
 					add_ok = True
 		ok2 = add_ok and bool(_re.search(spent_rx, ins)) and bool(_re.search(r'\w+ Add .*\.next_hops_fee_msat', clo_arg))
 		desc = 'existing entry += captured amount: %s; new entry = %s' % (add_ok, ins[-90:])
